@@ -341,6 +341,131 @@ def evaluate(case, ctx):
 
 
 @st.composite
+def corner_scenarios(draw):
+    """Parametrised corner templates for left/right symmetric code paths (structures suggested by the leads in
+    hunt/C11, coordinates and counts generated): every case is noise-free and compared under reflection."""
+    src = S.DrawSrc(draw)
+    kind = src.choice(["event_order", "micro_intron_blocks", "threaded_ends", "adjacent_cluster", "corner_start"])
+    strand = src.choice(["+", "-"])
+    base = src.int(600, 1500)
+    reads, novel = [], []
+    k = 0
+
+    def chain(lengths, gaps, start):
+        out, p_ = [], start
+        for i, ln in enumerate(lengths):
+            out.append([p_, p_ + ln - 1])
+            if i < len(gaps):
+                p_ += ln + gaps[i]
+        return out
+
+    def add(chain_, n, tail=True, prefix="r"):
+        nonlocal k
+        for _ in range(n):
+            k += 1
+            reads.append(S.exact_read("%s%d" % (prefix, k), "chr1", strand, chain_, polya=src.int(22, 32) if tail else 0))
+    if kind == "event_order":
+        # A: first exon cut by n small introns, then an alternative donor; B: an alternative acceptor, then the last
+        # exon cut by n small introns; the read has the long first and last exon and its own middle exon
+        n = src.int(2, 3)
+        piece, small = src.int(150, 220), src.int(90, 120)
+        first_len = (n + 1) * piece + n * small
+        gap1, mid, gap2 = src.int(400, 600), src.int(180, 260), src.int(400, 600)
+        d = src.int(45, 70)
+        f0 = base
+        f1 = f0 + first_len - 1
+        m0 = f1 + gap1 + 1
+        m1 = m0 + mid - 1
+        l0 = m1 + gap2 + 1
+        l1 = l0 + first_len - 1
+        a_first = chain([piece] * (n + 1), [small] * n, f0)
+        b_last = chain([piece] * (n + 1), [small] * n, l0)
+        A = a_first + [[m0, m1 + d]] + [[l0, l1]]
+        B = [[f0, f1]] + [[m0 - d, m1]] + b_last
+        trs = [{"id": "A", "exons": A}, {"id": "B", "exons": B}]
+        add([[f0, f1], [m0, m1], [l0, l1]], src.int(1, 3), tail=False)
+        novel.append([[f0, f1], [m0, m1], [l0, l1]])
+    elif kind == "micro_intron_blocks":
+        mi = src.int(42, 50)
+        T = chain([src.int(150, 220), src.int(150, 220), src.int(180, 240), src.int(150, 220), src.int(150, 220)],
+                  [mi, src.int(300, 500), src.int(300, 500), mi], base)
+        trs = [{"id": "T", "exons": T}]
+        add([[T[0][0], T[1][1]]] + T[2:], src.int(3, 5), prefix="f")
+        add(T[:3] + [[T[3][0], T[4][1]]], src.int(3, 5), prefix="l")
+    elif kind == "threaded_ends":
+        T = chain([src.int(180, 240)] * 3, [src.int(280, 400)] * 2, base)
+        trs = [{"id": "T", "exons": T}]
+        cut = src.int(60, 120)
+        g4 = src.int(300, 450)
+        e4 = [T[2][0] + cut + g4, T[2][0] + cut + g4 + src.int(250, 320)]
+        N = T[:2] + [[T[2][0], T[2][0] + cut - 1], e4]
+        novel.append(N)
+        dlt = src.int(8, 45)
+        side = src.choice(["end", "start"])
+        add(N, src.int(2, 4), tail=True, prefix="p")
+        if side == "end":
+            N2 = N[:-1] + [[N[-1][0], N[-1][1] + dlt]] if strand == "+" else [[N[0][0] - dlt, N[0][1]]] + N[1:]
+        else:
+            N2 = [[N[0][0] - dlt, N[0][1]]] + N[1:] if strand == "+" else N[:-1] + [[N[-1][0], N[-1][1] + dlt]]
+        add(N2, src.int(2, 4), tail=False, prefix="u")
+    elif kind == "adjacent_cluster":
+        T = chain([src.int(180, 240)] * 3, [src.int(280, 400)] * 2, base)
+        trs = [{"id": "T", "exons": T}]
+        gap = src.choice([-1, 0, 0, 1])
+        if src.bool(0.5):
+            c0 = T[-1][1] + 1 + gap
+            C = chain([src.int(180, 240)] * 3, [src.int(280, 400)] * 2, c0)
+        else:
+            ln = [src.int(180, 240)] * 3
+            gp = [src.int(280, 400)] * 2
+            c1 = T[0][0] - 1 - gap
+            C = chain(ln, gp, c1 - (sum(ln) + sum(gp)) + 1)
+        novel.append(C)
+        add(C, src.int(3, 6), prefix="p")
+    else:
+        e1 = src.int(160, 220)
+        T = chain([e1, src.int(260, 320)], [src.int(700, 900)], base)
+        trs = [{"id": "T", "exons": T}]
+        mid0 = T[0][1] + src.int(250, 350)
+        midx = [mid0, mid0 + src.int(180, 220)]
+        A = [T[0], midx, T[1]]
+        tiny0 = T[0][1] + src.int(4, 9)
+        Bc = [[tiny0, tiny0 + src.int(7, 12)], midx, [T[1][0], T[1][1] + src.int(200, 320)]]
+        novel += [A, Bc]
+        add(A, src.int(8, 11), prefix="a")
+        add(Bc, src.int(3, 4), prefix="b")
+    allx = [e for t in trs for e in t["exons"]] + [e for c_ in novel for e in c_] + \
+        [b for r in reads for b in R.cigar_blocks(r["p"], r["cg"])]
+    if min(e[0] for e in allx) < 60:
+        off = 100 - min(e[0] for e in allx)
+        for t in trs:
+            t["exons"] = [[a + off, b + off] for a, b in t["exons"]]
+        novel = [[[a + off, b + off] for a, b in c_] for c_ in novel]
+        for r in reads:
+            r["p"] += off
+        allx = [[a + off, b + off] for a, b in allx]
+    length = max(e[1] for e in allx) + src.int(900, 2000)
+    overrides = []
+    for t in trs:
+        overrides += build.splice_overrides("chr1", t["exons"], strand)
+    for c_ in novel:
+        overrides += build.splice_overrides("chr1", c_, strand)
+    sc = {"chroms": [["chr1", length, src.int(1, 10 ** 6)]],
+          "genes": [{"id": "G1", "chr": "chr1", "strand": strand, "canon": "canon", "transcripts": trs}],
+          "overrides": overrides, "reads": reads, "nfiles": 1,
+          "gtf": {"gene_records": True, "transcript_records": True},
+          "opts": ["--data_type", src.choice(["nanopore", "pacbio_ccs"]), "--no_gzip", "--threads", "1"],
+          "noise_free": True, "corner": kind, "transform": {"kind": "reflect"}}
+    return sc
+
+
+def evaluate_corner(case, ctx):
+    evaluate(case, ctx)
+    ctx.cls("corner=" + case["corner"])
+    ctx.mark_nontrivial(case_hash(case))
+
+
+@st.composite
 def split_scenarios(draw):
     """Loci above the region-splitting thresholds (templates of C05/C03) translated by a multiple of the 256-bp
     coverage bin: split points move with the locus, so every output must be the translated original."""
@@ -377,4 +502,5 @@ def evaluate_split(case, ctx):
 def stages(tier):
     q = tier == "quick"
     return [Stage("equivariance", "hyp", evaluate, n=160 if q else 3000, strategy=scenarios),
-            Stage("split_shift", "hyp", evaluate_split, n=32 if q else 500, strategy=split_scenarios)]
+            Stage("split_shift", "hyp", evaluate_split, n=32 if q else 500, strategy=split_scenarios),
+            Stage("corners", "hyp", evaluate_corner, n=80 if q else 1500, strategy=corner_scenarios)]
